@@ -76,6 +76,8 @@ class C06(Prop):
         for i in range(n):
             g = Gen6(random.Random(rng.getrandbits(48)), full=True, depth=rng.choice([1, 2, 2, 3]),
                      carried=rng.choice([0.0, 0.0, 0.5]))
+            if i % 4 == 3:
+                g.ifinput = 0.3  # a conditional computing from a region-local and an outer value is itself a setup input
             yield {"kind": "overlap", "src": g.program(), "xseed": rng.getrandbits(32)}
 
     def _run(self, case):
